@@ -44,7 +44,10 @@ def str_values(profile: str, wild: bool = True):
         alpha += ["*", "*", "?", "\\*", "\\?", "\\\\"]
     if profile == "sq":
         alpha += ["&"]
-    return st.lists(st.sampled_from(alpha), min_size=0, max_size=70 if BIG[0] else 6).map("".join)
+    chars = st.lists(st.sampled_from(alpha), min_size=0, max_size=70 if BIG[0] else 6).map("".join)
+    # whole values that are also valid as another type or look like syntax, and blanks at the edges
+    special = st.sampled_from(["1", "0", "true", "null", "~", "2024-01-02", "1 of them", "and", "not a", " a", "a ", " ", "1e3", "0x1f", "-"])
+    return st.one_of(chars, chars, chars, chars, chars, chars, chars, special)
 
 
 REGEXES = ["a.*b", "^a", "b$", "a/b", "\\d+", "a|b", "(x)+y", "^a.*b$", "\\\\", ".*", "a\\.b", "[a-z]{2}", "a b", "é", "x/y\\/z"]
